@@ -226,6 +226,14 @@ func TestC08_Save(t *testing.T) {
 				cmdStr, ccls = argvString(t, "command")
 			}
 			desc, dcls := argvString(t, "description")
+			if mainCopy && ccls == "main-copy" && rapid.Bool().Draw(t, "main-copy-description") {
+				// ... with the built-in description kept word for word (only keywords, platforms or category are the user's own)
+				for _, m := range c08Main {
+					if m.Command == cmdStr {
+						desc, dcls = m.Description, "plain"
+					}
+				}
+			}
 			if ccls != "plain" && ccls != "reused" && ccls != "main-copy" || dcls != "plain" {
 				hostile = true
 			}
